@@ -99,6 +99,16 @@ func (r *FnRun) solve(workDir string, limitMs int, allSolvers bool) {
 					o.Solver += "+" + a.sp.name
 				}
 			}
+			if agreed == "unknown" {
+				// no answer within the limit (possibly because the machine was
+				// busy): one more attempt with three times the limit
+				for _, sp := range solvers[:1] {
+					if rr, mm := runOne(sp, qf, 3*limitMs); rr != "unknown" {
+						agreed = rr
+						o.Solver, o.TimeMs = sp.name, mm
+					}
+				}
+			}
 			o.Result = agreed
 			if o.Result == "unsat" {
 				os.Remove(qf)
